@@ -142,6 +142,10 @@ pub enum GcTemplate {
     SingleCycle { start_at: u64, mark: u32, sweep: u32 },
     /// production heuristic plus forced starts with probability 1/p
     DefaultPlusForced { p: u32 },
+    /// exactly one cycle, forced to start at decision `start_at`, then paced by the production
+    /// code itself (one `process_gray` / `sweep` call with its byte budget per instruction);
+    /// no other cycle is allowed to start
+    SingleStartThenDefault { start_at: u64 },
 }
 
 #[derive(Serialize, Deserialize, Clone, Debug, PartialEq)]
@@ -840,6 +844,22 @@ impl Sim {
                                 GcPhase::Marking => Some((false, mark, 0)),
                                 GcPhase::Sweeping => Some((false, 0, sweep)),
                             }
+                        }
+                    }
+                    GcTemplate::SingleStartThenDefault { start_at } => {
+                        if !self.single_cycle_started {
+                            if idx >= start_at {
+                                self.single_cycle_started = true;
+                                self.single_cycle_thread = ctx.thread;
+                                Some((true, 0, 0))
+                            } else {
+                                Some((false, 0, 0))
+                            }
+                        } else if ctx.thread == self.single_cycle_thread && ctx.phase != GcPhase::Idle {
+                            // the cycle is in progress: the production pacing code advances it
+                            None
+                        } else {
+                            Some((false, 0, 0))
                         }
                     }
                     GcTemplate::DefaultPlusForced { p: pp } => {
